@@ -40,11 +40,11 @@ static void c06_try(Buf *b, int kind, const uint8_t *m, uint32_t mn, const Blob 
     (void)gvol;
 }
 static void c06_mutations(Buf *b, int kind, const Blob *target, const Blob *gperm, const Blob *gvol, int budget) {
-    uint8_t *m = malloc(target->n + 64); char desc[64];
+    uint8_t *m = malloc(target->n + 1400); char desc[64];
     static const uint16_t BV[] = {0, 1, 2, 0x7f, 0x80, 0xff, 0x100, 0x7fff, 0x8000, 0xfffe, 0xffff};
     for (int i = 0; i < budget; i++) {
         memcpy(m, target->p, target->n); uint32_t mn = target->n;
-        switch (rnd(9)) {
+        switch (rnd(10)) {
         case 0: mn = rnd(mn); snprintf(desc, sizeof desc, "trunc@%u", mn); break;
         case 1: { uint32_t o = rnd(mn); m[o] ^= 1 << rnd(8); snprintf(desc, sizeof desc, "bit@%u", o); break; }
         case 2: case 3: { uint32_t o = rnd(mn - 1); uint16_t v = BV[rnd(11)]; m[o] = v >> 8; m[o + 1] = v; snprintf(desc, sizeof desc, "u16@%u=%u", o, v); break; }
@@ -60,6 +60,22 @@ static void c06_mutations(Buf *b, int kind, const Blob *target, const Blob *gper
         case 6: { /* splice: tail of the blob replaced by bytes from elsewhere */
             uint32_t o = rnd(mn), src = rnd(mn), len = rnd(64); for (uint32_t k = 0; k < len && o + k < mn && src + k < mn; k++) m[o + k] = target->p[src + k]; snprintf(desc, sizeof desc, "splice@%u<-%u", o, src); break; }
         case 7: { /* over-long */ uint32_t add = 1 + rnd(32); for (uint32_t k = 0; k < add; k++) m[mn + k] = rnd(256); mn += add; snprintf(desc, sizeof desc, "extend+%u", add); break; }
+        case 8: { /* structure-aware: an orderly-RAM entry (inserted when the image has none) whose data size lies in the
+                     window around "fits exactly": size fields consistent, enough bytes present */
+            long f = kind == 0 ? find_magic(m, mn, 0, 0x5346feab) : -1;
+            if (f < 2 || (uint32_t)f + 14 > mn) { snprintf(desc, sizeof desc, "oram-none"); break; }
+            uint32_t p = (uint32_t)f - 2, asz = g32(m + p + 8), e = p + 12, used = 0;
+            /* walk the existing entries */
+            while (e + 4 <= mn && g32(m + e) != 0 && used + g32(m + e) <= asz && e + 14 + (g32(m + e) - 12) <= mn) { used += g32(m + e); e += 14 + (g32(m + e) - 12); }
+            if (e + 4 > mn || asz < used + 12) { snprintf(desc, sizeof desc, "oram-full"); break; }
+            int room = (int)asz - (int)used - 12, ds = room - 3 + (int)rnd(20); if (ds < 0) ds = room; if (ds > 1300) ds = 1300;
+            uint32_t ins = 14 + (uint32_t)ds;
+            memmove(m + e + ins, m + e, mn - e); mn += ins;
+            uint32_t q = e; uint32_t sz = 12 + (uint32_t)ds;
+            m[q] = sz >> 24; m[q+1] = sz >> 16; m[q+2] = sz >> 8; m[q+3] = sz; m[q+4] = 0x01; m[q+5] = 0x50; m[q+6] = 0; m[q+7] = 0x77;
+            uint32_t at = 0x0402000A | (1u << 26); m[q+8] = at >> 24; m[q+9] = at >> 16; m[q+10] = at >> 8; m[q+11] = at; m[q+12] = ds >> 8; m[q+13] = ds;
+            for (int k = 0; k < ds; k++) m[q + 14 + k] = rnd(256);
+            snprintf(desc, sizeof desc, "oram-entry@%u ds=%d room=%d", e, ds, room); break; }
         default: { uint32_t o = rnd(mn), len = 1 + rnd(8); for (uint32_t k = 0; k < len && o + k < mn; k++) m[o + k] = rnd(256); snprintf(desc, sizeof desc, "rand@%u+%u", o, len); break; }
         }
         uint8_t *exact = malloc(mn ? mn : 1); memcpy(exact, m, mn);      /* exact-size copy: ASan sees reads past the end */
